@@ -36,6 +36,11 @@ CLAIMS = {
          "every one of the ~50 call sites between depth-carrying functions passes its own call_depth + k with k >= 0, FunctionDef::call passes k >= 1 to the body, and only drivers pass constants, so every cycle through a Blots call strictly increases the counter (R2); "
          "the evaluator runs on a stack of at least 8 MiB (no smaller explicit thread stack) (R3s). The stack budget itself (frames x depth) is evaluated in the thorough tier.",
          BASE_NOTE + " R3 uses nightly release frames, not the pinned 1.89 ones.", "DESIGN.md §4 C18"),
+ "C11": ("sibling agreement by operation signature: HIR normaliser with operand roles by provenance (pattern position / element-of-list / loop variable), compared against the operation the statement gives, per operator and per copy",
+         "Exhaustive static decision, for each of the 17 broadcasting operators and each of the four hand-written copies (scalar, list-list, list-scalar, scalar-list), that the element operation is the one the statement gives with operands in the right order, "
+         "that fallible conversions are not hoisted out of the element loop, that each copy visits every element once in order (R1), that every copy has a value-producing arm (R5), that the six dot comparisons return from the pre-match before any list inspection (R3), "
+         "and that the list-list length test with error exit comes before any value is produced and only callback operators are diverted earlier (R4). IEEE semantics of the primitives are not decided.",
+         BASE_NOTE, "DESIGN.md §4 C11"),
  "C17": ("exact-rational lint of the literal unit table + MIR dominance / who-may-call on units::convert",
          "Exhaustive static decision, for every row of the literal unit catalogue, of: identifier uniqueness (R1), metric/binary prefix "
          "ratios in exact rationals (R2/R2b), positive literal coefficients (R3), temperature maps composing to the identity symbolically (R4), "
